@@ -65,6 +65,16 @@ def gen(rng, tier):
         yield {"segs": [["list", ["filter", ["self"]]]], "doc": [v, {"a": v}], "seed": 4}
         yield {"segs": [["list", ["filter", ["self", ["sel", ["name", "a"]]]]]], "doc": [v, {"a": v}, {}], "seed": 5}
         yield {"segs": [["list", ["filter", ["not", ["self", ["sel", ["name", "a"]]]]]]], "doc": [v, {"a": v}, {}], "seed": 6}
+    # match / search against strings that end in a line feed (a full match is not "matches up to a final line feed"),
+    # contain one, or are empty
+    strs = ["ab", "ab\n", "a", "a\n", "\n", "", "b\n", "aab\n\n", "é\n", "a\nb", "\na", "1\n", "ab\r", "ab\r\n"]
+    for pat in Q.PATTERNS + ["ab", "[a-z]*", "a\\nb", "(a|ab)", ".*", "a.", ".b", "", "a*", "[^b]*"]:
+        for fn in ("match", "search"):
+            doc = strs + [{"s": x, "p": pat} for x in strs]
+            yield {"segs": [["list", ["filter", ["fn", fn, ["self"], ["lit", pat]]]]], "doc": doc, "seed": 7}
+            yield {"segs": [["list", ["filter", ["not", ["fn", fn, ["self", ["sel", ["name", "s"]]], ["lit", pat]]]]]], "doc": doc, "seed": 8}
+            yield {"segs": [["list", ["filter", ["op", "&&", ["fn", fn, ["self", ["sel", ["name", "s"]]], ["self", ["sel", ["name", "p"]]]],
+                                                  ["self", ["sel", ["name", "s"]]]]]]], "doc": doc, "seed": 9}
     names = ["a", "b", "c", "d", "0", "1"]
     n = 12000 if thorough else 1200
     for _ in range(n):
